@@ -2,6 +2,7 @@ package pipe
 
 import (
 	"fmt"
+	"sort"
 	"strconv"
 	"strings"
 
@@ -177,13 +178,37 @@ func sysReplay(run *hlib.Run, res *Result) {
 	if why == "" && res.CloseHang {
 		why = "close-hang"
 	}
+	if why == "several-partitions" && !res.CloseHang {
+		// PROJECTION: the run seen from each of its partitions is replayed through the one-partition model
+		used := map[int32]bool{}
+		var parts []int32
+		for _, m := range res.Sc.Msgs {
+			if !used[m.Partition] {
+				used[m.Partition] = true
+				parts = append(parts, m.Partition)
+			}
+		}
+		sort.Slice(parts, func(i, j int) bool { return parts[i] < parts[j] })
+		for _, p := range parts {
+			sysReplayPart(run, res, p, "projected")
+		}
+		return
+	}
 	if why != "" {
 		run.Count("sys-skipped:" + why)
 		return
 	}
+	sysReplayPart(run, res, part, "replayed")
+}
+
+func sysReplayPart(run *hlib.Run, res *Result, part int32, what string) {
 	ops, workers, early, note := SysLinesX(res, part)
 	if note != "" {
-		run.Count("sys-skipped:" + note)
+		if what == "projected" {
+			run.Count("sys-projection-skipped:" + note)
+		} else {
+			run.Count("sys-skipped:" + note)
+		}
 		return
 	}
 	for _, l := range ops {
@@ -194,19 +219,19 @@ func sysReplay(run *hlib.Run, res *Result) {
 	// the emitted lines, a disagreement is a correspondence difference
 	scope := sysChainScope(ops)
 	run.Emit("sys scope", scope)
-	run.Count("sys-replayed")
+	run.Count("sys-" + what)
 	if early > 0 {
-		run.Count("sys-replayed-with-early-handover")
+		run.Count("sys-" + what + "-with-early-handover")
 	}
 	if scope == "chain" {
-		run.Count("sys-replayed-in-handover-chain-scope")
+		run.Count("sys-" + what + "-in-handover-chain-scope")
 	} else {
-		run.Count("sys-replayed-outside-handover-chain-scope")
+		run.Count("sys-" + what + "-outside-handover-chain-scope")
 	}
 	if workers <= 1 {
-		run.Count("sys-replayed-single-worker")
+		run.Count("sys-" + what + "-single-worker")
 	} else {
-		run.Count("sys-replayed-multi-worker")
+		run.Count("sys-" + what + "-multi-worker")
 	}
 }
 
